@@ -667,6 +667,7 @@ func (g *FieldGen) Mutate(wire []byte) [][]byte {
 func init() {
 	extraChannels["F"] = ChannelF
 	extraChannels["M"] = ChannelM
+	extraChannels["MT"] = ChannelMT
 	extraChannels["O"] = ChannelO
 	extraChannels["K"] = ChannelK
 }
@@ -756,6 +757,42 @@ func ChannelM(t Tier, r *Rng, emit Emit) {
 					}
 					emit(fmt.Sprintf("M %s unpack %s", ss, H(mm)))
 				}
+			}
+		}
+	}
+}
+
+// ChannelMT: error attribution inside nested composites (C19's quantifier, exhaustive per
+// message): message specs that nest composites, each valid encoding cut at EVERY offset and
+// corrupted at EVERY byte position (incremented, and set to the largest digit / 0xFF), so
+// that the failure lands at every depth of the nesting and the whole field-id path —
+// message element, then subfield tags — is compared between model and implementation.
+func ChannelMT(t Tier, r *Rng, emit Emit) {
+	g := NewFieldGen(r)
+	for i := 0; i < t.N(260, 6000); i++ {
+		spec := g.MsgSpec(2 + r.Intn(2))
+		ss := spec.String()
+		if !strings.Contains(ss, ",sub(") || strings.Count(ss, "c(") < 2 {
+			continue // wanted: a composite inside a composite
+		}
+		m := g.Msg(spec)
+		line := fmt.Sprintf("M %s pack %s", ss, m.String())
+		wire, ok := packReal(line)
+		if !ok || len(wire) > 400 {
+			continue
+		}
+		emit(line)
+		for cut := 0; cut < len(wire); cut++ {
+			emit(fmt.Sprintf("M %s unpack %s", ss, H(wire[:cut])))
+		}
+		for pos := 0; pos < len(wire); pos++ {
+			for _, nb := range []byte{wire[pos] + 1, 0xFF, '9', 0x99} {
+				if nb == wire[pos] {
+					continue
+				}
+				mm := append([]byte{}, wire...)
+				mm[pos] = nb
+				emit(fmt.Sprintf("M %s unpack %s", ss, H(mm)))
 			}
 		}
 	}
